@@ -905,7 +905,8 @@ MANIFEST = {
     "loader read generated corpus files (every line identifies itself) for ~10^3 (quick) / ~10^4 (thorough) generated (file set, client count, worker split, "
     "asking order, bulk/batch size, ingest-percentage, conflict mode) cases; every bulk is compared with the files (exactly once, contiguous per group, size bound, "
     "action/document pairing, stop index, conflicting ids, progress). bounds()/number_of_bulks() are compared with exact integer arithmetic for totals up to 10^12 "
-    "and up to 10^4 clients. Holds on the executions produced, not beyond.",
+    "and up to 10^4 clients. Every 120th case is an end-to-end simulated race (real track preparation, one shared parameter source per task per worker, two bulk tasks in parallel) "
+    "whose bodies are read at the simulated _bulk endpoint. Holds on the executions produced, not beyond.",
     "note": "Trusts the corpus generator (c03_files.py, the files are the ground truth), the 100%-run as reference for the bulks of a group under ingest-percentage, "
     "and that worker groups are formed as in Driver.start_benchmark / AsyncIoAdapter.run (one shared source per task per worker). Lone CR inside lines is not generated.",
     "technique": "runtime monitor: ground-truth files with unambiguous history (exactly-once / contiguity / pairing checker), metamorphic 100% vs p% run, exact-arithmetic reference for slice bounds",
